@@ -106,3 +106,128 @@ Proof.
   specialize (Hub 16 eq_refl).
   unfold bundle_len' in Hlt. cbn [map sumz] in Hlt. unfold MAX_UDP, SYNC_SIZE in *. lia.
 Qed.
+
+(* ---- the use sites: send_clumped_bundles and sync ---- *)
+(* what is known of every clump: it is not empty, its elements are elements of the input with
+   their predicted sizes, it is a single element or its predicted bundle is below the size *)
+Lemma clump_facts : forall size es cs c,
+  clump_bundle true size es = Ok cs -> In c cs ->
+  c <> [] /\ (forall e, In e c -> In e es) /\
+  Forall (fun e => calc_elem true e = Ok (esz e)) c /\
+  ((length c <= 1)%nat \/ 16 + wsum esz c < size).
+Proof.
+  intros size es cs c Hcl Hc.
+  unfold clump_bundle in Hcl. apply bind_ok in Hcl as (sl & Hsl & Hcl). inv_ok Hcl.
+  destruct (clump_sizes_map _ _ Hsl) as [-> Hsz].
+  assert (Hsub : forall e, In e c -> In e es).
+  { intros e He.
+    pose proof (clump_loop_concat true size (map (fun e => (esz e, e)) es) 16 []) as Hcat.
+    cbn [rev app] in Hcat. rewrite map_map in Hcat. cbn [snd] in Hcat. rewrite map_id in Hcat.
+    rewrite <- Hcat. apply in_concat. exists c. split; assumption. }
+  split; [| split; [exact Hsub | split]].
+  - pose proof (clump_loop_nonempty size (map (fun e => (esz e, e)) es) 16 []) as HN.
+    rewrite Forall_forall in HN. exact (HN c Hc).
+  - apply Forall_forall. intros e He. rewrite Forall_forall in Hsz. apply Hsz, Hsub, He.
+  - pose proof (clump_loop_bound esz size es 16 [] eq_refl (or_introl (Nat.le_0_l 1))) as HB.
+    rewrite Forall_forall in HB. exact (HB c Hc).
+Qed.
+
+(* the bundle built from a list of elements (plus extra ones) is not longer than predicted *)
+Lemma bundle_real_le : forall nc lat tag c extra d,
+  forallb floats4 c = true ->
+  Forall (fun e => calc_elem true e = Ok (esz e)) c ->
+  build_pkt nc (AList (ATime lat tag :: c ++ extra)) = Ok d ->
+  exists dx, build_elems nc lat extra = Ok dx /\ zlen d <= 16 + wsum esz c + bundle_len' dx.
+Proof.
+  intros nc lat tag c extra d Hwf Hcsz Hb.
+  destruct (build_bundle_len _ _ _ _ _ Hb) as (ds & Hds & Hlen).
+  destruct (build_elems_app _ _ _ _ _ Hds) as (dc & dx & Hdc & Hdx & ->).
+  exists dx. split; [exact Hdx |].
+  destruct (sized_elems nc lat c dc (Forall_sized nc c) Hwf Hdc) as [_ Hub].
+  specialize (Hub _ (calc_bndl_wsum c Hcsz)).
+  rewrite Hlen. unfold bundle_len. fold (bundle_len' (dc ++ dx)). rewrite bundle_len'_app. lia.
+Qed.
+
+Lemma calc_bndl_sizes : forall es n, calc_bndl true es = Ok n ->
+  Forall (fun e => calc_elem true e = Ok (esz e)) es /\ n = 16 + wsum esz es.
+Proof.
+  induction es as [| e r IH]; intros n H; cbn [calc_bndl] in H.
+  - inv_ok H. split; [constructor | reflexivity].
+  - apply bind_ok in H as (s & Hs & H). apply bind_ok in H as (t & Ht & H). inv_ok H.
+    destruct (IH t Ht) as [HF ->].
+    assert (Hes : esz e = s) by (unfold esz; rewrite Hs; reflexivity).
+    split; [constructor; [rewrite Hes; exact Hs | exact HF] |].
+    unfold wsum. cbn [map sumz]. rewrite Hes. lia.
+Qed.
+
+(* NetAddr.send_clumped_bundles: every datagram it sends is within the UDP limit, provided each
+   single element is (an element larger than the clump size travels alone) *)
+Theorem send_clumped_within_udp_main : forall nc es cs,
+  forallb floats4 es = true ->
+  send_clumped_plan true es = Ok cs ->
+  (forall e s, In e es -> calc_elem true e = Ok s -> 16 + (s + 4) <= MAX_UDP) ->
+  concat cs = es /\
+  forall c, In c cs -> forall lat tag d,
+    build_pkt nc (AList (ATime lat tag :: c)) = Ok d -> zlen d <= MAX_UDP.
+Proof.
+  intros nc es cs Hwf Hp Hfit. unfold send_clumped_plan in Hp.
+  apply bind_ok in Hp as (n & Hn & Hp).
+  destruct (MAX_UDP <? n) eqn:E.
+  - split.
+    { unfold clump_bundle in Hp. apply bind_ok in Hp as (sl & Hsl & Hp). inv_ok Hp.
+      destruct (clump_sizes_map _ _ Hsl) as [-> _].
+      rewrite clump_loop_concat. cbn [rev app]. rewrite map_map. cbn [snd]. apply map_id. }
+    intros c Hc lat tag d Hb.
+    destruct (clump_facts _ _ _ _ Hp Hc) as (Hne & Hsub & Hcsz & Hbound).
+    replace c with (c ++ []) in Hb by apply app_nil_r.
+    destruct (bundle_real_le nc lat tag c [] d (forallb_sub _ _ _ Hwf Hsub) Hcsz Hb) as (dx & Hdx & Hle).
+    cbn in Hdx. inv_ok Hdx. unfold bundle_len' in Hle. cbn [map sumz] in Hle.
+    destruct Hbound as [Hlen | Hlt]; [| unfold MAX_UDP in *; lia].
+    destruct c as [| e [| e' c']]; [contradiction | | cbn [length] in Hlen; lia].
+    unfold wsum in Hle. cbn [map sumz] in Hle.
+    inversion Hcsz as [| ? ? He _]; subst.
+    pose proof (Hfit e (esz e) (Hsub e (or_introl eq_refl)) He). lia.
+  - inv_ok Hp. apply Z.ltb_ge in E. split; [cbn [concat]; apply app_nil_r |].
+    intros c [<- | []] lat tag d Hb.
+    destruct (calc_bndl_sizes _ _ Hn) as [Hcsz ->].
+    replace es with (es ++ []) in Hb by apply app_nil_r.
+    destruct (bundle_real_le nc lat tag es [] d Hwf Hcsz Hb) as (dx & Hdx & Hle).
+    cbn in Hdx. inv_ok Hdx. unfold bundle_len' in Hle. cbn [map sumz] in Hle. lia.
+Qed.
+
+(* NetAddr.sync(elements): every datagram (clump + '/sync') is within the UDP limit *)
+Theorem sync_within_udp_main : forall nc es cs,
+  forallb floats4 es = true ->
+  sync_plan true es = Ok cs ->
+  (forall e s, In e es -> calc_elem true e = Ok s -> 16 + (s + 4) + 20 <= MAX_UDP) ->
+  concat cs = es /\
+  forall c, In c cs -> forall lat tag id d,
+    build_pkt nc (AList (ATime lat tag :: c ++ [sync_msg id])) = Ok d -> zlen d <= MAX_UDP.
+Proof.
+  intros nc es cs Hwf Hp Hfit. unfold sync_plan in Hp.
+  apply bind_ok in Hp as (n & Hn & Hp).
+  assert (Hsync : forall lat id dx, build_elems nc lat [sync_msg id] = Ok dx -> bundle_len' dx <= 20).
+  { intros lat id dx Hdx. cbn [build_elems] in Hdx. apply bind_ok in Hdx as (ds & Hs & Hdx). cbn [bind] in Hdx. inv_ok Hdx.
+    cbn [build_elem sync_msg] in Hs.
+    destruct (sized_all nc (sync_msg id) eq_refl ds Hs) as [_ Hub]. specialize (Hub 16 eq_refl).
+    unfold bundle_len'. cbn [map sumz]. lia. }
+  destruct (MAX_UDP - SYNC_SIZE <? n) eqn:E.
+  - split.
+    { unfold clump_bundle in Hp. apply bind_ok in Hp as (sl & Hsl & Hp). inv_ok Hp.
+      destruct (clump_sizes_map _ _ Hsl) as [-> _].
+      rewrite clump_loop_concat. cbn [rev app]. rewrite map_map. cbn [snd]. apply map_id. }
+    intros c Hc lat tag id d Hb.
+    destruct (clump_facts _ _ _ _ Hp Hc) as (Hne & Hsub & Hcsz & Hbound).
+    destruct (bundle_real_le nc lat tag c [sync_msg id] d (forallb_sub _ _ _ Hwf Hsub) Hcsz Hb) as (dx & Hdx & Hle).
+    pose proof (Hsync lat id dx Hdx) as H20.
+    destruct Hbound as [Hlen | Hlt]; [| unfold MAX_UDP, SYNC_SIZE in *; lia].
+    destruct c as [| e [| e' c']]; [contradiction | | cbn [length] in Hlen; lia].
+    unfold wsum in Hle. cbn [map sumz] in Hle.
+    inversion Hcsz as [| ? ? He _]; subst.
+    pose proof (Hfit e (esz e) (Hsub e (or_introl eq_refl)) He). lia.
+  - inv_ok Hp. apply Z.ltb_ge in E. split; [cbn [concat]; apply app_nil_r |].
+    intros c [<- | []] lat tag id d Hb.
+    destruct (calc_bndl_sizes _ _ Hn) as [Hcsz ->].
+    destruct (bundle_real_le nc lat tag es [sync_msg id] d Hwf Hcsz Hb) as (dx & Hdx & Hle).
+    pose proof (Hsync lat id dx Hdx) as H20. unfold MAX_UDP, SYNC_SIZE in *. lia.
+Qed.
